@@ -37,6 +37,37 @@ def minmax(interp, argv, is_max):
     return VInt(m)
 
 
+class VIntSet(V):
+    """an abstract finite set of ints given by its membership predicate (a dict's keys, a parameter)"""
+    kind = 'vset'
+
+    def __init__(self, member, pattern=None, name='set'):
+        self.member_z, self.pattern, self.name = member, pattern, name
+
+    def member(self, x):
+        if x.kind != 'int':
+            return False
+        return self.member_z(x.z)
+
+
+class VMap(V):
+    """a locally built dict with symbolic int keys: dom(q) -> Bool, get(q) -> V"""
+    kind = 'vmap'
+
+    def __init__(self, dom, get, meta=None):
+        self.dom, self.get, self.meta = dom, get, (meta or {})
+
+    def getitem(self, interp, key):
+        if key.kind != 'int':
+            raise PyRaise('KeyError', 'non-int key')
+        if interp.ctx.branch(z3.Not(self.dom(key.z)), 'KeyError(map)'):
+            raise PyRaise('KeyError', 'local map')
+        return self.get(key.z)
+
+    def setitem(self, interp, key, v):
+        raise Undecided('store into a symbolic map')
+
+
 def sorted_(interp, argv, kwv):
     """trusted contract of sorted() over the keys of an int-keyed dict: an ascending, duplicate-free
     enumeration of exactly the keys (a dict has no duplicate keys)"""
@@ -47,6 +78,8 @@ def sorted_(interp, argv, kwv):
         g = v.base.g
         member = g['SKey'] if v.base.kind == 'snap' else g['TKey']
         return sorted_int_set(interp.ctx, lambda q: member[q], lambda q: [member[q]], 'sorted_' + v.base.kind)
+    if v.kind == 'vset':
+        return sorted_int_set(interp.ctx, v.member_z, v.pattern or (lambda q: None), 'sorted_' + v.name)
     items = interp.static_items(v)
     if items is not None and all(x.kind == 'int' for x in items) and len(items) <= 1:
         return VList(items)
@@ -61,7 +94,9 @@ def sorted_int_set(ctx, member, pattern, name):
     ctx.assume(n >= 0, 'seq')
     ctx.assume(z3.ForAll([i, j], z3.Implies(z3.And(0 <= i, i < j, j < n), f(i) < f(j)), patterns=[z3.MultiPattern(f(i), f(j))]), 'seq')
     ctx.assume(z3.ForAll([i], z3.Implies(inb(i, n), member(f(i))), patterns=[f(i)]), 'seq')
-    ctx.assume(z3.ForAll([q], z3.Implies(member(q), z3.And(inb(idx(q), n), f(idx(q)) == q)), patterns=pattern(q)), 'seq')
+    pats = pattern(q)
+    body = z3.Implies(member(q), z3.And(inb(idx(q), n), f(idx(q)) == q))
+    ctx.assume(z3.ForAll([q], body, patterns=pats) if pats else z3.ForAll([q], body, patterns=[idx(q)]), 'seq')
     return VSeq(n, lambda k: VInt(f(k)), {'elem_kind': 'int', 'sorted': True, 'f': f, 'idx': idx, 'member': member})
 
 
@@ -70,7 +105,14 @@ def sum_(interp, argv):
 
 
 def dict_(interp, argv):
-    raise Undecided('dict()')
+    v = argv[0]
+    if v.kind == 'snap':
+        g = v.g
+        SKey, SCnt = g['SKey'], g['SCnt']      # a copy: later writes to the graph do not show through
+        return VMap(lambda q: SKey[q], lambda q: VInt(SCnt[q]), {'copy_of': 'snapshots'})
+    if v.kind == 'dict':
+        return VDictLit(list(v.pairs))
+    raise Undecided('dict() of %s' % v.kind)
 
 
 def next_(interp, argv):
@@ -86,7 +128,15 @@ def zip_(interp, argv):
 
 
 def enumerate_(interp, argv):
-    raise Undecided('enumerate()')
+    v = argv[0]
+    if len(argv) > 1:
+        raise Undecided('enumerate with start')
+    items = interp.static_items(v)
+    if items is not None:
+        return VList([VTuple([VInt(k), x]) for k, x in enumerate(items)])
+    if v.kind == 'seq':
+        return VSeq(v.n, lambda k: VTuple([VInt(k), v.elem(k)]), {'elem_kind': 'tuple', 'of': v})
+    raise Undecided('enumerate() of %s' % v.kind)
 
 
 def to_seq(interp, v):
@@ -113,7 +163,36 @@ def seq_slice(interp, c, lo, hi):
 
 
 def symbolic_comprehension(interp, e, fr, it, what):
-    raise Undecided('comprehension over %s' % it.kind)
+    """{key(i): val(i) for target in seq}: exact dict semantics (a later element overwrites an earlier one with
+    the same key): dom(q) <=> exists i<n. key(i) == q;  get(q) = val(last(q)), last(q) the largest such index"""
+    import ast as _ast
+    g = e.generators[0]
+    if it.kind != 'seq' or g.ifs:
+        raise Undecided('comprehension over %s' % it.kind)
+    ctx = interp.ctx
+
+    def at(k):
+        saved = dict(fr.env)
+        interp.assign(g.target, it.elem(k), fr)
+        if what == 'dict':
+            kv = (interp.eval(e.key, fr), interp.eval(e.value, fr))
+        else:
+            kv = (interp.eval(e.elt, fr),)
+        fr.env.clear()
+        fr.env.update(saved)
+        return kv
+    if what != 'dict':
+        return VSeq(it.n, lambda k: at(k)[0], {'elem_kind': 'mapped', 'of': it})
+    probe = at(fresh('probe', Int))
+    if probe[0].kind != 'int':
+        raise Undecided('dict comprehension with non-int keys')
+    last = fresh_fun('last', Int, Int)
+    indom = fresh_fun('indom', Int, Bool)
+    n = it.n
+    i, q = z3.Int('i?dc'), z3.Int('q?dc')
+    ctx.assume(z3.ForAll([q], z3.Implies(indom(q), z3.And(inb(last(q), n), at(last(q))[0].z == q)), patterns=[indom(q)]), 'seq')
+    ctx.assume(z3.ForAll([i], z3.Implies(inb(i, n), z3.And(indom(at(i)[0].z), i <= last(at(i)[0].z))), patterns=[at(i)[0].z]), 'seq')
+    return VMap(lambda qq: indom(qq), lambda qq: at(last(qq))[1], {'n': n, 'key': lambda k: at(k)[0], 'val': lambda k: at(k)[1], 'last': last})
 
 
 def havoc_seq(v, name):
